@@ -706,3 +706,46 @@ func c19EveryPartitionRouted(p *load.Program, r *oblig.Report, rule string) {
 	sort.Strings(bad)
 	r.Check(len(bad) == 0, rule, "makePartitions lists every partition of the metadata response in the layout", p.Pos(fn.Pos()), "for _, p := range metadataPartitions { protocolPartitions[p.PartitionIndex] = … } unconditionally", strings.Join(bad, "; "))
 }
+
+// c07BatchOwnsMessages: a batch that failed is retried with the messages it was closed with, while later batches are
+// being filled. The message storage of a batch must therefore be its own: writeBatch.msgs is only ever a slice the
+// batch made, or an append to what it already holds.
+func c07BatchOwnsMessages(p *load.Program, r *oblig.Report) {
+	const rule = "C07.R7 a batch owns the storage of its messages"
+	n := 0
+	var bad []string
+	for _, fn := range p.EveryModuleFunction() {
+		top := fn
+		for top.Parent() != nil {
+			top = top.Parent()
+		}
+		if top.Pkg != p.SSAPkg("") {
+			continue
+		}
+		for _, b := range fn.Blocks {
+			for _, ins := range b.Instrs {
+				st, ok := fieldStoreIs(ins, "writeBatch", "msgs")
+				if !ok {
+					continue
+				}
+				n++
+				okV := false
+				switch v := st.Val.(type) {
+				case *ssa.MakeSlice:
+					okV = true
+				case *ssa.Const:
+					okV = v.IsNil()
+				case *ssa.Call:
+					if bi, isB := v.Call.Value.(*ssa.Builtin); isB && bi.Name() == "append" {
+						okV = isFieldValue(v.Call.Args[0], "msgs")
+					}
+				}
+				if !okV {
+					bad = append(bad, an.ShortFunc(fn)+" sets batch.msgs to "+clean(an.Shape(st.Val))+" at "+p.Pos(st.Pos()))
+				}
+			}
+		}
+	}
+	sort.Strings(bad)
+	r.Check(n >= 2 && len(bad) == 0, rule, "writeBatch.msgs is a slice the batch made, or an append to its own", "writer.go", "b.msgs = make([]Message, 0, maxSize); b.msgs = append(b.msgs, msg)", strings.Join(bad, "; "))
+}
